@@ -25,8 +25,9 @@ RULE = ('one evaluation = one seeded run: (a) a single-client history of push/pu
         '1-2 prefixes interleaved by the seeded scheduler, checked for linearizability against a per-prefix deque model and for '
         'conservation (pushed = pulled + remaining); or (c) the same with one consumer process killed at a seeded seam event of a '
         'pull; non-trivial = at least 3 queue operations (a) / a context switch (b, c); distinct = SHA-256 of program or event log')
+RULE += ' ' + 'A fifth of the single-client histories run under JSONDisk (text values, no iteration).'
 ASSUMPTIONS = ['free-running real producer/consumer processes are replaced by seeded schedules of simulated processes']
-PROBES = ('queue_ops', 'cull_expired', 'lock_wait', 'related_prefixes')
+PROBES = ('queue_ops', 'cull_expired', 'lock_wait', 'related_prefixes', 'json_disk')
 TECHNIQUE = 'deterministic simulation: model-based checking of queue histories under a virtual clock; seeded schedules + linearizability against a deque model; consumer crash injection'
 LEVEL_TEXT = ('seeded exploration of queue histories and of producer/consumer interleavings under the simulator, decided by an '
               'executable queue model step by step and by a linearizability search for the concurrent runs (exactly-once and '
@@ -109,7 +110,33 @@ def gen_case(seed, tier):
                 burst.append(op)
             at = rng.randrange(len(prog) + 1)
             prog[at:at] = burst
-        return {'seed': seed, 'cfg': {'kind': 'seq', 'settings': settings, 'profile': 'queue'}, 'prog': prog}
+        cfg = {'kind': 'seq', 'settings': settings, 'profile': 'queue'}
+        if rng.random() < 0.2:
+            # the shipped JSONDisk (keys and values in an encoding of the Disk's own): queue keys are written as they are, so
+            # they come back as they are; values are what JSON can carry
+            cfg['disk'] = 'json'
+            for op in prog:
+                v = op.get('v')
+                if isinstance(v, dict) and 'big' in v:
+                    op['v'] = {'big': ['str', v['big'][1], v['big'][2]]}
+                elif isinstance(v, dict):
+                    op['v'] = 'j-%s' % hashlib.sha256(json.dumps(v, sort_keys=True).encode()).hexdigest()[:8]
+                if isinstance(op.get('tag'), dict):
+                    op['tag'] = 't1'
+                if isinstance(op.get('k'), dict):
+                    op['k'] = 'jk-%s' % hashlib.sha256(json.dumps(op['k'], sort_keys=True).encode()).hexdigest()[:6]
+            # (iteration decodes every key through the Disk: with queue keys in the cache it fails under JSONDisk - the
+            # documented limit of that combination, 14.3 - so the JSON runs do not iterate)
+            prog = [op for op in prog if not op.get('read') and op['op'] != 'iter']
+            # ... and empty their queues before the final comparison, which does
+            for pfx in prefixes:
+                npush = sum(1 for op in prog if op['op'] == 'push' and op.get('prefix') == pfx)
+                for _ in range(npush + 1):
+                    op = {'op': 'pull', 'side': rng.choice(('front', 'back'))}
+                    if pfx is not None:
+                        op['prefix'] = pfx
+                    prog.append(op)
+        return {'seed': seed, 'cfg': cfg, 'prog': prog}
     prefixes = rng.sample([None, 'a', 'a-5'], rng.choice((1, 2)))
     nclients = rng.choice((2, 3))
     progs = {}
@@ -274,6 +301,8 @@ def run_case(case):
             if it.rowid in model.rows:
                 present = it.key in cache
                 want = it.live(model.pending[1])
+                if case['cfg'].get('disk') == 'json':
+                    want = present      # under JSONDisk lookups encode the key, queue keys are stored as they are (14.3)
                 if present != want:
                     violations.append({'rule': 'C10/pushed-key-not-addressable', 'sig': 'contains',
                                        'detail': 'push returned %r; `key in cache` is %s, expected %s' % (it.key, present, want)})
@@ -282,6 +311,8 @@ def run_case(case):
     digest = hashlib.sha256(json.dumps([case['cfg'], case['prog']], sort_keys=True).encode()).hexdigest()
     nq = sum(1 for op in case['prog'] if op['op'] in ('push', 'pull', 'peek'))
     stats['probes']['queue_ops'] = nq
+    if case['cfg'].get('disk') == 'json':
+        stats['probes']['json_disk'] = 1
     prefixes = {op.get('prefix') for op in case['prog'] if op['op'] in ('push', 'pull', 'peek')}
     if {'a', 'a-5'} <= prefixes or {'a', 'a-b'} <= prefixes:
         stats['probes']['related_prefixes'] = 1
